@@ -19,14 +19,14 @@ func init() { core.Register(c19{}) }
 func (c19) ID() string    { return "C19" }
 func (c19) Level() string { return "exploration" }
 func (c19) Rule() string {
-	return "cases = command sequences of 50..400 commands over 3..6 keys x 3..5 fields/members mixing strings with TTL (0, +10 min, +1 h, +10^4 h, -1 ms, -1 h, 250 years, MaxInt64: the nearest deadline is 10 minutes away, so expiry never depends on when the check runs), hashes, sets, lists (push/pop at both ends, pops on empty lists) and sorted sets (score updates, re-adding with the same score), wrong-type commands on every type pair, Del + re-creation with another type, commands on expired strings, and 1..4 restarts; store with small DataFileSize so that structure updates span rotations, all index types and both I/O types. In every second case key and field/member are passed as sub-slices of one packet buffer (the key slice has spare capacity holding the next argument), as a network front-end would. Every reply is normalised to an abstract outcome (present(v) / absent / bool / size / score / type / wrong-type) and compared with an in-memory reference model of the five types, immediately and again for a full read-back of all keys/fields/members after every restart. Non-trivial: sequence using >=4 of the 5 types, >=1 wrong-type reply, >=1 Del + re-creation and >=1 restart; distinct = hash of (config, command log)"
+	return "cases = command sequences of 50..400 commands over 3..6 keys x 3..5 fields/members mixing strings with TTL (0, +10 min, +1 h, +10^4 h, -1 ms, -1 h, 250 years, MaxInt64: the nearest deadline is 10 minutes away, so expiry never depends on when the check runs; plus, in every second case, four probe keys on which a Set with a 20 ms / 1 h / no deadline is followed by a Set of the SAME bytes with another deadline, judged 200 ms later and again after the restart: the later deadline alone decides), hashes, sets, lists (push/pop at both ends, pops on empty lists) and sorted sets (score updates, re-adding with the same score), wrong-type commands on every type pair, Del + re-creation with another type, commands on expired strings, and 1..4 restarts; store with small DataFileSize so that structure updates span rotations, all index types and both I/O types. In every second case key and field/member are passed as sub-slices of one packet buffer (the key slice has spare capacity holding the next argument), as a network front-end would. Every reply is normalised to an abstract outcome (present(v) / absent / bool / size / score / type / wrong-type) and compared with an in-memory reference model of the five types, immediately and again for a full read-back of all keys/fields/members after every restart. Non-trivial: sequence using >=4 of the 5 types, >=1 wrong-type reply, >=1 Del + re-creation and >=1 restart; distinct = hash of (config, command log)"
 }
 func (c19) Assumptions() []string {
 	return []string{"absence encodings ((nil,nil), ErrKeyNotFound, (-1,nil)) are normalised to `absent`", "string values are non-empty; hash fields and list elements may be empty, in which case HGet/LPop/RPop replies are compared modulo `empty == absent` (the API cannot tell them apart) while HSet/HDel flags and sizes are compared exactly",
 		"a container emptied by removals keeps its type until Del (the model follows the engine here; the statement does not say)", "TTL only far past / far future (incl. time.Duration(MaxInt64) and 250 years, whose stored deadline overflows int64 nanoseconds)", "members/fields are short strings that cannot collide with the internal key encoding", "scores are never -1 (ZScore encodes absence as -1)"}
 }
 func (c19) Required() []string {
-	return []string{"replies_compared", "wrong_type_replies", "restarts", "del_recreate", "expired_key_commands", "readback_compared"}
+	return []string{"replies_compared", "wrong_type_replies", "restarts", "del_recreate", "expired_key_commands", "readback_compared", "ttl_replacement_probes"}
 }
 
 func (c19) Cases(tier string, seed uint64) []core.Case {
@@ -533,11 +533,49 @@ func (c19) Run(c core.Case, w *core.Worker) core.Result {
 			deleted[k] = false
 		}
 	}
+	// deadline replacement: a later Set replaces the earlier deadline even when the VALUE is
+	// byte-identical. Keys outside the model; 20 ms deadlines, judged after a 200 ms sleep
+	// (a stall between the two Sets only makes the first deadline pass, which changes nothing).
+	type ttlProbe struct {
+		key          string
+		first, later time.Duration
+		want         string
+	}
+	var probes []ttlProbe
+	if c.Index%2 == 1 && !dead && res.Verdict != "violated" {
+		pvv := []byte("same-bytes-both-times")
+		probes = []ttlProbe{{"ttl-probe-persist", 20 * time.Millisecond, 0, wantVal(pvv)}, {"ttl-probe-expire", 0, 20 * time.Millisecond, "absent"},
+			{"ttl-probe-extend", 20 * time.Millisecond, time.Hour, wantVal(pvv)}, {"ttl-probe-shorten", time.Hour, 20 * time.Millisecond, "absent"}}
+		core.Safe(func() {
+			for _, p := range probes {
+				logl = append(logl, fmt.Sprintf("Set(%s,same value,ttl=%v); Set(%s,same value,ttl=%v)", p.key, p.first, p.key, p.later))
+				if e1, e2 := svc.Set([]byte(p.key), pvv, p.first), svc.Set([]byte(p.key), pvv, p.later); e1 != nil || e2 != nil {
+					fail("Set", fmt.Sprintf("error:%v/%v", e1, e2), "ok")
+				}
+			}
+		})
+		time.Sleep(200 * time.Millisecond)
+	}
+	checkProbes := func(when string) {
+		for _, p := range probes {
+			if dead {
+				return
+			}
+			logl = append(logl, fmt.Sprintf("Get(%s) %s, 200 ms after Set(ttl=%v); Set(ttl=%v) of one value", p.key, when, p.first, p.later))
+			v, e := svc.Get([]byte(p.key))
+			res.Add("ttl_replacement_probes", 1)
+			if got := outVal(v, e); got != p.want {
+				fail("Get", got, p.want)
+			}
+		}
+	}
+	core.Safe(func() { checkProbes("before the restart") })
 	if !dead && res.Verdict != "violated" {
 		logl = append(logl, "restart")
 		if svc.Close() == nil && open() {
 			res.Add("restarts", 1)
 			readback()
+			core.Safe(func() { checkProbes("after the restart") })
 		}
 	}
 	core.Safe(func() { svc.Close() })
